@@ -423,7 +423,7 @@ func mkMinMax(op Op, x, y *Term) *Term {
 	}
 	// a length or capacity is never negative: min(c, len) = c and max(c, len) = len for a constant c <= 0
 	for _, pr := range [][2]*Term{{x, y}, {y, x}} {
-		if c, ok := pr[0].ConstInt(); ok && c.Sign() <= 0 && pr[1].Op == OpAtom && (strings.HasPrefix(pr[1].Name, "len(") || strings.HasPrefix(pr[1].Name, "cap(")) {
+		if c, ok := pr[0].ConstInt(); ok && c.Sign() <= 0 && structNonNeg(pr[1], 0) {
 			if op == OpMin {
 				return pr[0]
 			}
@@ -941,4 +941,27 @@ func (f *Facts) String() string {
 		s[i] = c.String()
 	}
 	return strings.Join(s, " ∧ ")
+}
+
+// structNonNeg: non-negative by construction (lengths, capacities, non-negative constants, and min / max /
+// truncating quotient by a positive constant of such terms).
+func structNonNeg(t *Term, depth int) bool {
+	if t == nil || depth > 6 {
+		return false
+	}
+	switch t.Op {
+	case OpAtom:
+		return strings.HasPrefix(t.Name, "len(") || strings.HasPrefix(t.Name, "cap(")
+	case OpConst:
+		c, ok := t.ConstInt()
+		return ok && c.Sign() >= 0
+	case OpMin:
+		return structNonNeg(t.Args[0], depth+1) && structNonNeg(t.Args[1], depth+1)
+	case OpMax:
+		return structNonNeg(t.Args[0], depth+1) || structNonNeg(t.Args[1], depth+1)
+	case OpDiv:
+		c, ok := t.Args[1].ConstInt()
+		return ok && c.Sign() > 0 && structNonNeg(t.Args[0], depth+1)
+	}
+	return false
 }
